@@ -497,7 +497,7 @@ def run(ctx):
     outer_pairs(ctx, d, exe, C, 1000 if not T else 50000)
     outer_cycles(ctx, d, 60 if not T else 2000)
     t2 = time.time()
-    histories(ctx, d, exe, C, (170, 10) if not T else (3000, 150))
+    histories(ctx, d, exe, C, (170, 10) if not T else (2200, 120))
     ctx.note("wall: inner %.0fs, outer pairs+cycles %.0fs, histories %.0fs" % (t1 - t0, t2 - t1, time.time() - t2))
     for e in shape_errs:
         ctx.broken("source-shape", e)
@@ -858,7 +858,9 @@ def histories(ctx, d, exe, C, counts):
     for h in range(n69 + n125):
         api125 = h >= n69
         kind = rng.choice([0, 1, 2, 2, 2, 3, 4])
-        vals = gen_universe(rng, kind)
+        # eq?-tables over heap keys (hash-by-identity = address): compared with the SPEC map only
+        heap_eq = kind == 0 and rng.random() < 0.4
+        vals = gen_universe(rng, 2 if heap_eq else kind)
         nops = rng.choice([5, 20, 60, 120]) if h % 25 else 500
         ops = gen_ops(rng, len(vals), nops)
         if api125:
@@ -871,8 +873,8 @@ def histories(ctx, d, exe, C, counts):
         exprs.append("(c15-hist %s %s %s %s)" % ("c15-api125" if api125 else "c15-api69", mk, keys, ops_scheme(ops)))
         cls = classes(vals, kind)
         mreq.append("mhist %s %s" % (",".join("%x" % c for c in cls), ops_model(ops)))
-        layout = (not api125) and (kind != 0 or True) and all(v[0] != "sym" for v in vals)
-        # eq?-tables hash heap objects by address: layout only when every key is an immediate (gen_universe ensures it for kind 0)
+        layout = (not api125) and not heap_eq
+        # eq?-tables hash heap objects by address: layout only when every key is an immediate
         oreq.append("ohist %d %s %s" % (kind, ";".join(token(v, C) for v in vals), ops_model(ops)) if layout else None)
         meta.append((kind, api125, vals, ops, mk))
     out = [unquote(x) for x in scm.run_cases(d, exprs, prelude_extra=PRELUDE, imports=IMPORTS, chunk=40, timeout=900)]
